@@ -59,7 +59,7 @@ type loopInfo struct {
 	preState State
 	hdrState State
 	preAlloc string
-	modRefs  map[string][]string // heap base name -> declared modified refs
+	modRefs  map[string][]modT // heap base name -> declared modification targets
 }
 
 // FnEnc encodes one function.
@@ -95,7 +95,7 @@ type FnEnc struct {
 	namedResults []string
 	lets     map[string]Val
 	calleeUsed map[string]bool
-	modRefsFn map[string][]string
+	modRefsFn map[string][]modT
 	errs     []string
 	defers   []deferred
 }
